@@ -1168,6 +1168,9 @@ fn run_kind1(rt: &tokio::runtime::Runtime, p: &[u64]) -> Option<(Vec<u64>, Vec<u
                             cand_keys.push(pk.to_bytes().to_vec());
                         }
                         Err(e) => trace.extend([1, parse_class(&e)]),
+                        // only when the harness is built with its optional `rsa` feature (C18 aux stream)
+                        #[cfg(feature = "rsa")]
+                        Ok(RemotePublicKey::Rsa(_)) => trace.extend([1, 99]),
                     }
                 }
             }
